@@ -31,6 +31,10 @@ HIST_POOL = [
     "".join(f"junk{i}\n" for i in range(10)) + "Feature: f\n  Scenario: s\n    Given x\n  @t\n  @bad tag\n  Scenario: t\n",
     "# c0\nFeature: d\n  Scenario: s\n    Given x\n        ```\n        c\n        ```\n    And y\n      \"\"\" m\n      d\n      \"\"\"\n",
     "Feature: i\n    indented description\n      more\n  Scenario: s\n    free\n",
+    # a header that names English (a switch for a matcher whose default is another dialect), a header-less French document, an outline whose first step is a conjunction
+    "# language: en\nFeature: e\n  Scenario: s\n    When x\n",
+    "Fonctionnalit\u00e9: g\n  Sc\u00e9nario: t\n    Soit y\n",
+    "Feature: w\n  Scenario Outline: o\n    And <h>\n    Examples:\n      | h |\n      | 1 |\n      | 2 |\n",
 ]
 SCHED_POOL = [
     "Feature: a\n  Scenario: s\n    Given x\n",
